@@ -1,7 +1,7 @@
 #!/bin/bash
 # Keep a confirmed seed under /verif/seeded/<id>/ and record what was run.
 # usage: keep_seed.sh <id> "<detection result text>"
-ID=$1; RES=$2; SRC=/tmp/seeded_out/$ID; DST=/verif/seeded/$ID
+ID=$1; RES=$2; SRC=${SEED_SRC:-/tmp/seeded_out}/$ID; DST=/verif/seeded/$ID
 mkdir -p $DST && cp $SRC/patch.diff $SRC/*.go $DST/ 2>/dev/null
 python3 - "$SRC/meta.json" "$DST/meta.json" "$ID" "$RES" <<'PY'
 import json,sys
